@@ -32,6 +32,11 @@ CHECKS = {
             "Every positional/keyword split, omitted-default subset and keyword order of every constructor, method and Core helper is generated with distinct sentinel values (shapes the host class itself rejects are dropped by really calling it); each accepted shape's IR must carry exactly the values Python binds, so swaps, drops and wrong defaults are visible. Finite domain, enumerated completely for <=4 keywords, 24 orders sampled beyond.",
             "Parameter->IR-field table (identity except renamed fields) is harness knowledge; host-only parameters are not compared.",
             "DESIGN.md 3/C08"),
+    "C01": ("translation_validation",
+            "differential testing: Hypothesis-generated scripts from a typed grammar, emitted C++ compiled and executed against a mock Arduino core vs the same text executed by CPython on instrumented host modules; trace comparison oracle; structural ddmin shrinker",
+            "Each generated script is translated, compiled for the host against a mock Arduino core that turns every serial line, delay and pin command into a trace event, run for N loop() passes with an input tape, and compared event-for-event with CPython's execution of the same text; rejected scripts are counted, accepted scripts that do not compile or diverge are violations. Classes covered by open findings are excluded by construction (feature flags) and by a dynamic membership test on the CPython run.",
+            "Mock core + host g++ stand in for avr-g++/Arduino core (32-bit int, %.9g floats); float cases restricted to float32-exact intermediates.",
+            "DESIGN.md 3/C01"),
 }
 
 PENDING = {}
